@@ -54,19 +54,40 @@ func propDefs() map[string]propDef {
 			[]string{`^ensures:(err|one|sendone|send|cancel)$`, `^pre:`}),
 		Explain: "postconditions over the ghost traces out (events written) and sent(logins): write failure returns the error and forwards nothing; otherwise exactly one succeeded event is written and then either exactly one login is sent whose Source is the pointer that was written, whose PID is Atoi(pid) and whose CredUserID is the certificate key ID or 'unknown', stamped after the write, or the context was cancelled; failure handlers never send",
 	}
+	m["C06"] = propDef{ID: "C06", Level: "proof",
+		Lemmas: []lemmaUnit{{Name: "sshd-formats", Args: []string{"C06"}}},
+		Units: sshdUnits(
+			[]string{`^ensures:(fields|match|only|one|err)$`, `^pre:`},
+			[]string{`^ensures:(fields|certdata|match|only|one|err)$`, `^pre:`},
+			[]string{`^ensures:(event|outcome|one)$`, `^pre:`},
+			[]string{`^ensures:(event|one)$`, `^pre:`}),
+		Explain: "(i) code-level postconditions of every handler: on a match exactly one event whose fields equal named capture groups / constants, outcome, component, PID, node name, machine ID, timestamp; (ii) the dispatch table read from ProcessEntry/userTypeLogAuditFn; (iii) per message format of the oracle specs/sshd_formats.json, regular-language lemmas over the regexp contracts derived from the current pattern literals: every printed line reaches its handler, matches its pattern, and group k is exactly field k",
+	}
+	m["C07"] = propDef{ID: "C07", Level: "proof",
+		Units: []unit{u("ingesters/syslog.(*SyslogIngester).ParseSyslogMessage"), u("ingesters/syslog.(*SyslogIngester).Process"),
+			u("processors/sshd.(*SshdProcessorer).ProcessSshdLogEntry", `^ensures:traced$`),
+			u("ingesters/auditlog.(*AuditLogIngester).Process", `^ensures:(forward|nil)$`, safetyRe)},
+		Assume: []string{"auparse.ParseLogLine ignores trailing white space (dependency behaviour: Parse calls strings.TrimSpace) — assumed, not verified",
+			"rsyslog writes '<pid> <message>\\n' records as configured in contrib/rsyslog (configuration, not code)"},
+		Explain: "postcondition of the real ParseSyslogMessage for every record '<pid><one or more spaces><message>\\n' (pid without spaces, message not starting with a space): PID == pid and Message == message, i.e. the terminator is stripped, padding ignored, internal spacing preserved; Process hands exactly that value, once, to ProcessSshdLogEntry (ghost call record verified in the callee) with the same context; the audit ingester forwards the line unchanged to the channel",
+	}
+	m["C17"] = propDef{ID: "C17", Level: "proof",
+		Lemmas: []lemmaUnit{{Name: "sshd-formats", Args: []string{"C17"}}},
+		Units: []unit{u("processors/sshd.processInvalidUserEntry", `^ensures:(fields|match|only)$`), u("processors/sshd.failedPasswordAuth", `^ensures:(fields|match|only)$`),
+			u("processors/sshd.maxAuthAttemptsExceeded", `^ensures:(fields|match|only)$`)},
+		Explain: "regular-language lemmas over the regexp contracts derived from the pattern literals of the current tree: for every user name in [^\\n]* every printed line of the three forms is routed to its handler, matches its pattern, and the Source and Port groups are exactly the printed address and port; composed with the handlers' verified postconditions (event fields == capture groups)",
+	}
 	return m
 }
 
 func (w *World) runLemma(lu lemmaUnit, opts solveOpts, thorough bool) ([]*Obligation, []string) {
-	return nil, nil
+	switch lu.Name {
+	case "sshd-formats":
+		qs, notes := w.sshdLemmas(lu.Args[0])
+		return solveLemmas(qs, opts), notes
+	}
+	return []*Obligation{{Name: "lemma/" + lu.Name, Kind: "subset", Status: "failed", Solver: "structural", Detail: "unknown lemma generator"}}, nil
 }
 
 func (w *World) runStructural(name string) []*Obligation { return nil }
 
-func buildReplay(w *World, id string, o *Obligation, repo string) *Replay {
-	spec := ""
-	if len(o.VCs) > 0 {
-		spec = o.VCs[0].note
-	}
-	return &Replay{Property: id, Obligation: o.Name, Kind: o.Kind, Spec: spec, Status: o.Status, Solver: o.Detail, Model: trunc(o.Model, 20000)}
-}
